@@ -166,6 +166,15 @@ def generated_document(rng):
         tag = rng.choice(("text:p", "text:p", "text:h"))
         attr = ' text:outline-level="1"' if tag == "text:h" else ""
         body.append(Element.from_tag(f"<{tag}{attr}>{a}{b}{c}</{tag}>"))
+    # the same picture shown in two frames, and another one
+    from odfdo import Frame, Paragraph
+
+    uri = doc.add_file(io.BytesIO(b"\x89PNG fake picture " + str(rng.random()).encode()))
+    uri2 = doc.add_file(io.BytesIO(b"\x89PNG other picture " + str(rng.random()).encode()))
+    for i, u in enumerate((uri, uri2, uri)):
+        par = Paragraph(f"picture {i}")
+        par.append(Frame.image_frame(u, size=("1cm", "1cm"), name=f"img{i}", anchor_type="as-char"))
+        body.append(par)
     # tables with trailing empty rows / cells and repeated runs (what exporters are tempted to strip)
     from . import tablelib as tl
     from .table_driver import rand_state
@@ -297,6 +306,18 @@ def history(seed: int, nsteps: int = 10, sources=None) -> list:
                     deleted_any = True
                     ev["part"] = name
                     known.discard(name)
+                elif op == "add_file" and rng.random() < 0.08:
+                    # a burst of distinct files, recorded as the last one (the others are separate events below)
+                    for j in range(rng.randint(12, 24)):
+                        c2 = f"burst {j} of {seed} step {k}".encode()
+                        uri2 = doc.add_file(io.BytesIO(c2))
+                        events.append({"op": "add_file", "part": uri2, "new": part_ids(uri2, c2, ids)})
+                        known.add(uri2)
+                    content = f"burst last of {seed} step {k}".encode()
+                    uri = doc.add_file(io.BytesIO(content))
+                    ev["part"] = uri
+                    ev["new"] = part_ids(uri, content, ids)
+                    known.add(uri)
                 elif op == "add_file":
                     content = f"blob {rng.randint(0, 2)} of {seed}".encode() * 3
                     if rng.random() < 0.5:
@@ -357,6 +378,7 @@ def history(seed: int, nsteps: int = 10, sources=None) -> list:
                 elif op == "clone":
                     c = doc.clone
                     ev["view"] = doc_view(c, sorted(known), ids)
+                    ev["mf_view"] = [str(p) for p in c.manifest.get_paths()]
                     handles["twin_names"] = sorted(known)
                     if rng.random() < 0.5:
                         handles["twin"] = doc
@@ -389,7 +411,11 @@ def history(seed: int, nsteps: int = 10, sources=None) -> list:
 
 
 def flat_ok(path: Path, doc) -> bool:
-    """Flat XML export: well formed, and holds the root children of each XML part."""
+    """Flat XML export: well formed, holds the root children of each XML part,
+    and the body has the same elements as content.xml (images are embedded as
+    office:binary-data inside the draw:image they belong to)."""
+    from collections import Counter
+
     try:
         root = etree.parse(str(path)).getroot()
     except etree.XMLSyntaxError:
@@ -402,7 +428,28 @@ def flat_ok(path: Path, doc) -> bool:
         except Exception:  # noqa: BLE001
             continue
         need |= {etree.QName(c).localname for c in part_root if isinstance(c.tag, str)}
-    return need <= have
+    if not need <= have:
+        return False
+    ons = "{urn:oasis:names:tc:opendocument:xmlns:office:1.0}"
+    body_flat = root.find(ons + "body")
+    body_mem = doc.get_part("content.xml").root._Element__element.find(ons + "body")
+    if body_flat is None or body_mem is None:
+        return False
+
+    dimg = "{urn:oasis:names:tc:opendocument:xmlns:drawing:1.0}image"
+
+    def tags(b):
+        # what is INSIDE a draw:image is replaced by the embedded data (lossy by design): not compared
+        out = Counter()
+        for e in b.iter():
+            if not isinstance(e.tag, str):
+                continue
+            if any(a.tag == dimg for a in e.iterancestors()):
+                continue
+            out[e.tag] += 1
+        return out
+
+    return tags(body_flat) == tags(body_mem)
 
 
 def _gen(args):
